@@ -20,6 +20,7 @@ const pkgResv = "pkg/binder/binding/resourcereservation"
 const pkgGroupMutex = "pkg/binder/binding/resourcereservation/group_mutex"
 
 func runC17(c *Ctx) {
+	runC17MultiFraction(c)
 	borrow(c, "O6", "C11", "O3", "SyncForNode(SelectedNode)", "the reservation pod created for a failed bind is re-evaluated only if the sync runs for the selected node")
 
 	p, fx := c.P, c.Fx
@@ -608,4 +609,68 @@ func exitHandsError(b *ssa.BasicBlock) string {
 		return ""
 	}
 	return visit(b)
+}
+
+// runC17MultiFraction (O9, O10): pods that share SEVERAL devices carry one label per group ("runai-gpu-group/<g>")
+// instead of the single group label. Two places decide whether such pods are seen:
+//   - IsMultiFraction answers "no" without an error only when the pod carries no device-count annotation at all
+//     (the sentinel of GetNumGPUFractionDevices) or the count is not above 1 — a shortcut keyed on one of the request
+//     annotations makes a gpu-memory pod on several devices single-fraction: every reserved group overwrites the
+//     single label, and the next sync deletes the reservation pods of all but the last group while the pod runs on
+//     them;
+//   - the per-group sync lists BOTH label forms before it decides, on every path that reports success — a shortcut on
+//     an empty first list skips the consumers that only carry the per-group label.
+func runC17MultiFraction(c *Ctx) {
+	fx := c.Fx
+	if f := c.Anchor("O9", "pkg/common/resources", "", "IsMultiFraction"); f != nil {
+		n := 0
+		for _, rp := range fx.retPaths(f, 1, WantNil) {
+			// only the paths that answer the literal false
+			n++
+			_, computed := hasFact(rp.Facts, func(ft Fact) bool {
+				return ft.T.Op == "bin" && (ft.T.Name == ">" || ft.T.Name == "<=" || ft.T.Name == "<" || ft.T.Name == ">=") && strings.Contains(ft.T.String(), "GetNumGPUFractionDevices")
+			})
+			_, sentinel := hasFact(rp.Facts, func(ft Fact) bool {
+				return ft.Pol && isCallNamed(ft.T, "Is") && strings.Contains(ft.T.String(), "fractionDevicesAnnotationNotFound")
+			})
+			_, noErr := hasFact(rp.Facts, func(ft Fact) bool {
+				// err == nil of the count helper: the answer is then the comparison itself
+				return ft.T.Op == "bin" && len(ft.T.Args) == 2 && ft.T.Args[1].isNilConst() && strings.Contains(ft.T.Args[0].String(), "GetNumGPUFractionDevices") &&
+					((ft.T.Name == "==" && ft.Pol) || (ft.T.Name == "!=" && !ft.Pol))
+			})
+			c.Check(computed || sentinel || noErr, "O9", "RET", fmt.Sprintf("%s: an answer without error comes from the device count or from its 'no annotation' sentinel (path#%d)", funcKey(f), n), rp.Pos, "count compared, or errors.Is(err, notFound)",
+				"IsMultiFraction answers without looking at the device count ("+trunc(factKeys(rp.Facts), 200)+"): a pod sharing several devices by gpu-memory is labelled like a single-device sharer, each reserved group overwrites the label of the previous one and their reservation pods are deleted while the pod runs on those devices")
+		}
+		c.Floor("O9", "RET error-free answers of IsMultiFraction", n, 2)
+	}
+	if f := c.Anchor("O10", pkgResv, "service", "syncForGpuGroupWithLock"); f != nil {
+		syncs := instrsIn(f, func(in ssa.Instruction) bool {
+			cc, ok := in.(ssa.CallInstruction)
+			return ok && calleeOf(cc) != nil && calleeOf(cc).Name() == "syncForPods"
+		})
+		lists := instrsIn(f, isInvokeNamed("List"))
+		c.Check(len(lists) >= 2, "O10", "REG", funcKey(f)+": both label forms are listed", f.Pos(), fmt.Sprintf("%d List calls", len(lists)), "the per-group sync lists fewer than the two label forms (single group label, per-group label of multi-device sharers)")
+		for _, s := range syncs {
+			for _, l := range lists {
+				c.Check(l.Block().Dominates(s.Block()), "O10", "MPT", funcKey(f)+": the sync decides on both lists", instrPos(l), "List dominates syncForPods", "a List of one label form is not on every path to the decision")
+			}
+		}
+		isSync := func(in ssa.Instruction) bool {
+			for _, s := range syncs {
+				if in == s {
+					return true
+				}
+			}
+			return false
+		}
+		_, path, found := reachAvoiding([]cfgPos{entryPos(f)}, isReturn, isSync, func(from, to *ssa.BasicBlock) bool {
+			// leaving with the error of a failed List is not a success report
+			return !fx.edgeEstablishes(from, to, func(ft Fact) bool {
+				return ft.T.Op == "bin" && len(ft.T.Args) == 2 && ft.T.Args[1].isNilConst() && ft.T.Args[0].V != nil && types.Identical(ft.T.Args[0].V.Type(), errorType) &&
+					((ft.T.Name == "!=" && ft.Pol) || (ft.T.Name == "==" && !ft.Pol))
+			})
+		})
+		c.Check(len(syncs) > 0 && !found, "O10", "MPT", funcKey(f)+": success is reported only by the sync over both lists", f.Pos(), "every error-free exit passes syncForPods",
+			"the per-group sync can report success without having looked at the group's pods ("+pathStr(path)+"): consumers that only carry the per-group label (multi-device sharers) are not repaired when the first list is empty")
+	}
 }
